@@ -47,7 +47,7 @@ func ruleC13Shorten(e *Env, units []string) {
 	site := flow.FnName(fn)
 	pos := e.Pos(fn)
 	got, _ := sizeUnits(e, "C13.units")
-	su := e.P.Var("size", "shortenUnits")
+	su := e.V("size", "shortenUnits")
 	var and, shr *ssa.BinOp
 	for _, b := range fn.Blocks {
 		for _, in := range b.Instrs {
@@ -292,7 +292,7 @@ func ruleC13Group(e *Env) {
 	pos := e.Pos(fn)
 	// find the condition: an If in the digit loop whose condition is `expr == const` (or !=) leading to the call of
 	// appendSeparator; expr is built from the loop index i, len(b) and constants with + - %.
-	sep := e.P.Func("size", "appendSeparator")
+	sep := e.F("size", "appendSeparator")
 	var call *ssa.Call
 	for _, c := range e.C.Calls(fn, func(f *ssa.Function) bool { return f == sep }) {
 		if call != nil {
